@@ -165,6 +165,15 @@ func (f fallback) FindDescriptorByName(n protoreflect.FullName) (protoreflect.De
 	return protoregistry.GlobalFiles.FindDescriptorByName(n)
 }
 
+// Resolver returns a protodesc.Resolver that looks into files first and the
+// global registry second (for reflection servers over dynamic worlds).
+func Resolver(files *protoregistry.Files) interface {
+	FindFileByPath(string) (protoreflect.FileDescriptor, error)
+	FindDescriptorByName(protoreflect.FullName) (protoreflect.Descriptor, error)
+} {
+	return fallback{files}
+}
+
 var stdDeps = []string{
 	"google/api/annotations.proto",
 	"google/api/httpbody.proto",
